@@ -1193,6 +1193,9 @@ class Equilibrium(Reaction):
             other_is_int = other.is_integer
         except AttributeError:
             other_is_int = isinstance(other, int)
+        else:
+            if callable(other_is_int):  # a method of float, Fraction and numpy numbers
+                other_is_int = other_is_int()
         if not other_is_int or not isinstance(self, Equilibrium):
             return NotImplemented
         param = None if self.param is None else self.param ** other
